@@ -29,7 +29,7 @@ LH == Loc(M0, 5, <<Ln(H, 30, 0)>>, FALSE)
 \* 4..6: location tables of three, one and two entries that give the same ids to different functions
 Stk == << <<LF>>, <<LG, LF>>, <<LG>>, <<LH, LG, LF>>, <<LH>>, <<LG, LH>> >>
 
-Factor(u) == CASE u = "us" -> 1 [] u = "ms" -> 1000 [] u = "s" -> 1000000 [] u = "B" -> 1 [] u = "kB" -> 1024 [] OTHER -> 1
+Factor(u) == CASE u = "us" -> 1 [] u = "ms" -> 1000 [] u = "milliseconds" -> 1000 [] u = "s" -> 1000000 [] u = "B" -> 1 [] u = "bytes" -> 1 [] u = "kB" -> 1024 [] OTHER -> 1
 VT(t, u) == [t |-> t, u |-> u]
 \* sample type lists: same types in other units / other order / partially overlapping
 TypeLists == << <<VT("cpu", "ms"), VT("mem", "B")>>,
@@ -38,7 +38,8 @@ TypeLists == << <<VT("cpu", "ms"), VT("mem", "B")>>,
                 <<VT("mem", "B"), VT("cpu", "ms")>>,         \* permuted
                 <<VT("cpu", "ms"), VT("extra", "B"), VT("mem", "B")>>,   \* partially overlapping
                 <<VT("cpu", "us"), VT("mem", "B")>>,                     \* finest unit
-                <<VT("extra", "B"), VT("mem", "B"), VT("cpu", "ms")>> >>  \* three types, rotated against list 5
+                <<VT("extra", "B"), VT("mem", "B"), VT("cpu", "ms")>>,    \* three types, rotated against list 5
+                <<VT("cpu", "milliseconds"), VT("mem", "bytes")>> >>      \* 8: the units of list 1 under their other spellings
 P(tl, ss) == [st |-> TypeLists[tl], samples |-> ss]
 S2(k, v) == Smp(Stk[k], v, <<>>, <<>>)
 \* values per type list arity
@@ -51,7 +52,7 @@ Two(tl) == IF tl = 5 THEN { <<S2(1, <<1, 7, 3>>), S2(2, <<5, 7, 0>>)>> }
            ELSE { <<S2(1, <<1, 3>>), S2(2, <<5, 0>>)>>, <<S2(2, <<0, 2>>), S2(3, <<2, 2>>)>> }
 Profs(tl) == { P(tl, ss) : ss \in One(tl) \cup Two(tl) }
 AnyProf == UNION { Profs(tl) : tl \in DOMAIN TypeLists }
-BaseProf == Profs(1) \cup Profs(2) \cup Profs(4)
+BaseProf == Profs(1) \cup Profs(2) \cup Profs(4) \cup Profs(8)
 
 Modes == {"plain", "base", "diff_base"}
 Cases(d) ==
